@@ -426,7 +426,7 @@ func run(c *core.Ctx) {
 			a.atGate = false
 			continue
 		}
-		c.Fail("HARNESS.stuck", "no event to inject but actors are not done: %s", c.S.StalledString())
+		c.Stuck("no event to inject but actors are not done: %s", c.S.StalledString())
 		return
 	}
 	// final drain: repeated releases that were stashed, then the lock must be free
